@@ -1444,13 +1444,13 @@ void XMLDateTime::validateDateTime() const
 
     //validate seconds
     if ( fValue[Second] < 0 ||
-         fValue[Second] > 60 )
+         fValue[Second] > 59 )
     {
         ThrowXMLwithMemMgr1(SchemaDateTimeException
                 , XMLExcepts::DateTime_second_invalid
                 , fBuffer
                 , fMemoryManager);
-        //"Second must have values 0-60");
+        //"Second must have values 0-59");
     }
 
     //validate time-zone hours
